@@ -68,6 +68,33 @@ def hooked_tree():
         return False
 
 
+class _Lines:
+    """line reader on a raw pipe fd with deadline (select + os.read; no hidden buffering)"""
+
+    def __init__(self, fd):
+        self.fd = fd
+        self.buf = b""
+
+    def readline(self, timeout):
+        end = time.time() + timeout
+        while b"\n" not in self.buf:
+            left = end - time.time()
+            if left <= 0:
+                return None
+            r, _, _ = select.select([self.fd], [], [], left)
+            if not r:
+                return None
+            chunk = os.read(self.fd, 1 << 16)
+            if not chunk:
+                if self.buf:
+                    line, self.buf = self.buf, b""
+                    return line.decode(errors="replace")
+                return ""
+            self.buf += chunk
+        line, self.buf = self.buf.split(b"\n", 1)
+        return line.decode(errors="replace")
+
+
 class LineProc:
     """A child process speaking a one-request-line / one-answer-line protocol."""
 
@@ -75,19 +102,18 @@ class LineProc:
         e = dict(os.environ)
         if env:
             e.update(env)
-        self.p = subprocess.Popen(argv, stdin=subprocess.PIPE, stdout=subprocess.PIPE, stderr=subprocess.DEVNULL,
-                                  text=True, bufsize=1, env=e)
+        self.p = subprocess.Popen(argv, stdin=subprocess.PIPE, stdout=subprocess.PIPE, stderr=subprocess.DEVNULL, env=e)
+        self.rd = _Lines(self.p.stdout.fileno())
 
     def ask(self, line, timeout=120):
-        self.p.stdin.write(line + "\n")
+        self.p.stdin.write((line + "\n").encode())
         self.p.stdin.flush()
-        r, _, _ = select.select([self.p.stdout], [], [], timeout)
-        if not r:
+        out = self.rd.readline(timeout)
+        if out is None:
             raise RuntimeError("no answer within %ds to %r" % (timeout, line[:100]))
-        out = self.p.stdout.readline()
-        if not out:
+        if out == "":
             raise RuntimeError("process died on %r" % line[:100])
-        return out.rstrip("\n")
+        return out
 
     def close(self):
         try:
@@ -497,17 +523,17 @@ class Engine:
         env.pop("TEXEL_VERIF_TRACE_ALL", None)
         if trace:
             env["TEXEL_VERIF_TRACE"] = trace
-        self.p = subprocess.Popen([exe], stdin=subprocess.PIPE, stdout=subprocess.PIPE, stderr=subprocess.DEVNULL,
-                                  text=True, bufsize=1, env=env)
+        self.p = subprocess.Popen([exe], stdin=subprocess.PIPE, stdout=subprocess.PIPE, stderr=subprocess.DEVNULL, env=env)
+        self.rd = _Lines(self.p.stdout.fileno())
         self.send("uci")
-        self.wait_for("uciok", 30)
+        self.wait_for("uciok", 60)
         for k, v in options.items():
             self.send("setoption name %s value %s" % (k, v))
         self.send("isready")
-        self.wait_for("readyok", 60)
+        self.wait_for("readyok", 120)
 
     def send(self, s):
-        self.p.stdin.write(s + "\n")
+        self.p.stdin.write((s + "\n").encode())
         self.p.stdin.flush()
 
     def wait_for(self, token, timeout):
@@ -515,15 +541,11 @@ class Engine:
         end = time.time() + timeout
         while True:
             left = end - time.time()
-            if left <= 0:
+            line = self.rd.readline(left) if left > 0 else None
+            if line is None:
                 raise RuntimeError("engine: no %r within %ds" % (token, timeout))
-            r, _, _ = select.select([self.p.stdout], [], [], left)
-            if not r:
-                continue
-            line = self.p.stdout.readline()
-            if not line:
+            if line == "" and self.p.poll() is not None:
                 raise RuntimeError("engine died waiting for %r" % token)
-            line = line.rstrip("\n")
             lines.append(line)
             if line.startswith(token):
                 return lines
@@ -1038,11 +1060,13 @@ def run(ctx):
     ok, info = coqbuild.prove(ctx, PROP_FILE, timeout=ctx.scale(900, 3600))
     if not ok:
         breaks.append(dict(kind="proof", what="theorem(s) in %s no longer check" % PROP_FILE, info=info))
+    ctx.log("proved: ok=%s" % ok)
     # (3) build
     harness_exe = build_harness()
     ml_exe = coqbuild.extract("ExtractSearch.v", "c04_driver.ml", "c04_driver")
     engines = {"material": cbuild.build_engine(net_kind="material", net_seed=1),
                "random": cbuild.build_engine(net_kind="random", net_seed=ctx.seed)}
+    ctx.log("built harness, driver, engines")
     traced = hooked_tree()
     ctx.notes["hook_H3_present"] = traced
     if not traced:
@@ -1052,16 +1076,19 @@ def run(ctx):
     dis = leaf_correspondence(ctx, harness_exe, ml_exe, ctx.scale(3000, 200000))
     if dis:
         breaks.append(dict(kind="leaf", what="leaf function model/implementation disagree", first=dis[0], count=len(dis)))
+    ctx.log("leaf correspondence: %d disagreements" % len(dis))
     # (3b)+(5) searches
     oracle = Oracle(harness_exe)
     try:
         sessions = plan_sessions(ctx, oracle, engines, harness_exe, traced)
     finally:
         oracle.close()
+    ctx.log("planned %d sessions, %d searches" % (len(sessions), sum(len(s['jobs']) for s in sessions)))
     t0 = time.time()
     with ThreadPoolExecutor(max_workers=min(NCPU, 12)) as ex:
         results = list(ex.map(run_session, sessions))
     ctx.notes["search_wall_s"] = round(time.time() - t0, 1)
+    ctx.log("searches done")
     fstats = {}
     finder_fails = []
     nsearch = 0
@@ -1094,6 +1121,7 @@ def run(ctx):
                 x["options"] = s["options"]
                 x["net"] = s["net"]
             breaks += b
+        ctx.log("certificates: %s" % json.dumps(tstats, sort_keys=True))
         ctx.notes["certificate_wall_s"] = round(time.time() - t1, 1)
         ctx.traces_validated = sum(1 for s in sessions if s.get("trace"))
         for k, v in tstats.items():
